@@ -200,6 +200,8 @@ def fam_argv(seed, big):
         {"argv": vargv(b"a\0b")}, {"argv": [hx(VCHILD + "\0x")]}, {"argv": vargv(b"ok", b"\0")},
         {"argv": vargv(), "env": [[hx("A\0"), hx("1")]]}, {"argv": vargv(), "env": [[hx("A"), hx("1\0 2")]]},
         {"argv": vargv(), "exe": hx(VCHILD + "\0")},
+        {"argv": vargv(), "cwd": hx(SP + "\0x")}, {"argv": vargv(), "cwd": hx("\0")},
+        {"argv": vargv(), "cwd": hx(SP + "\0"), "stdin": "pipe", "stdout": "pipe", "stderr": "merge", "detached": True},
     ]
     for n in nul:
         out.append(dict(n, id="a-nul%d" % i, **{"class": "nul", "nul": True, "expect_start": False}))
@@ -328,6 +330,19 @@ def fam_leak(seed, big):
         out.append({"id": "l%d" % i, "class": "leak-clone-kept", "argv": vargv(), "stdin": a, "stdout": b, "stderr": c,
                     "earlier": 1, "clone_keep": True})
         i += 1
+    # the parent's own stdout / stderr IS the writing end of a living Popen's stdin pipe (it logs through a child: a pager,
+    # a logger): commands that inherit or merge onto that stream get it as their stream -- and nowhere else
+    for which in (1, 2):
+        for (b, c) in (("merge", "none"), ("none", "merge"), ("none", "none"), ("pipe", "merge")):
+            out.append({"id": "l%d" % i, "class": "leak-parent-logs-through-child", "argv": vargv(), "stdin": "none",
+                        "stdout": b, "stderr": c, "earlier": 1, "repeat": 3, "repoint": which, "repoint_earlier": True})
+            i += 1
+            # (on a thread of its own, and from its very first launch on: whatever the library keeps per thread about
+            # the standard streams is made while the stream is that pipe)
+            out.append({"id": "l%d" % i, "class": "leak-parent-logs-through-child", "argv": vargv(), "stdin": "none",
+                        "stdout": b, "stderr": c, "earlier": 1, "repeat": 3, "repoint": which, "repoint_earlier": True,
+                        "repoint_from": 0, "thread": True})
+            i += 1
     # the same with standard descriptors of the parent closed: pipe ends of the library (of this launch and of the
     # earlier, still living Popens) are created on -- and moved away from -- the numbers 0-2
     for closed in ([0], [0, 1], [0, 1, 2]):
@@ -574,6 +589,14 @@ def fam_alloc(seed, big):
                 sc2 = dict(sc, id="m%d" % i, argv=[hx("/no/such/prog")] + sc["argv"][1:], expect_start=False)
                 out.append(sc2)
                 i += 1
+    # the program is named by the `executable` override and is longer than argv[0] (what the child is told it is called)
+    for k, (exe, ok) in enumerate(((VCHILD, True), ("/no/such/directory/" + "x" * 300 + "/prog", False), (deep + "/missing", False))):
+        sc = {"id": "m%d" % i, "class": "alloc-exe-override", "argv": [hx("sh")] + [hx("a%d" % n) for n in range(3)],
+              "exe": hx(exe), "expect_start": ok}
+        out.append(sc)
+        i += 1
+        out.append(dict(sc, id="m%d" % i, stdin="pipe", stdout="pipe", stderr="merge", cwd=hx(SP)))
+        i += 1
     return out
 
 
